@@ -6,6 +6,7 @@ import (
 	"strings"
 
 	"golang.org/x/mod/modfile"
+	"golang.org/x/mod/module"
 
 	"verif/sim/choice"
 	"verif/sim/core"
@@ -153,8 +154,7 @@ func (s *session) applyModel(o mOp) {
 
 // modCheck evaluates the oracles of C08 and C15 on a session that has just been cleaned up.
 // It returns the strictly re-parsed file (nil if that failed).
-func modCheck(res *core.Result, prop string, s *session, when string, history []string) *realFile {
-	out := s.real.format()
+func modCheck(res *core.Result, prop string, s *session, when string, history []string, out []byte) *realFile {
 	p, err := parseReal(s.real.work, out)
 	hist := strings.Join(history, "; ")
 	if err != nil {
@@ -312,6 +312,12 @@ func runModSession(src *choice.Src, prop string) *core.Result {
 	}
 	res.Logf("%s session: %s, %d operations\n%s", prop, map[bool]string{true: "go.work", false: "go.mod"}[work], nops, text)
 	var history []string
+	type handedOut struct{ slice, copy []byte }
+	var handed []handedOut
+	handOut := func(b []byte) []byte {
+		handed = append(handed, handedOut{b, append([]byte(nil), b...)})
+		return b
+	}
 	var kept []mOp // bulk operations whose list objects the caller still holds
 	noted := map[string]bool{}
 	persists := 0
@@ -323,8 +329,10 @@ func runModSession(src *choice.Src, prop string) *core.Result {
 				s.real.cleanup()
 			}
 			history = append(history, "[persist]")
-			modCheck(res, prop, A, fmt.Sprintf("at persistence point %d", persists), history)
-			pb := modCheck(res, prop, B, fmt.Sprintf("at persistence point %d", persists), history)
+			// both files are written out before either is read back (a tool saving all its files)
+			outA, outB := handOut(A.real.format()), handOut(B.real.format())
+			modCheck(res, prop, A, fmt.Sprintf("at persistence point %d", persists), history, outA)
+			pb := modCheck(res, prop, B, fmt.Sprintf("at persistence point %d", persists), history, outB)
 			if res.Violation != nil {
 				break
 			}
@@ -402,8 +410,18 @@ func runModSession(src *choice.Src, prop string) *core.Result {
 			s.real.cleanup()
 		}
 		history = append(history, "Cleanup")
-		modCheck(res, prop, A, "at the end", history)
-		modCheck(res, prop, B, "at the end", history)
+		outA, outB := handOut(A.real.format()), handOut(B.real.format())
+		modCheck(res, prop, A, "at the end", history, outA)
+		modCheck(res, prop, B, "at the end", history, outB)
+	}
+	// bytes handed out by Format belong to the caller: what was written out earlier still reads the same
+	if res.Violation == nil && prop == "C08" {
+		for i, h := range handed {
+			if !bytes.Equal(h.slice, h.copy) {
+				res.Fail("C08", "formatted-bytes-stable", "bytes returned by Format changed after a later Format call", "formatted output #%d (%d bytes) was\n%s\nand now reads\n%s\nhistory: %s", i, len(h.copy), clipText(h.copy), clipText(h.slice), strings.Join(history, "; "))
+				break
+			}
+		}
 	}
 	if persists > 0 {
 		res.Probes["session-with-persistence-point"]++
@@ -458,6 +476,24 @@ func c16Run(src *choice.Src) *core.Result {
 	} else {
 		op = mOp{name: []string{"SetRequire", "SetRequireSeparateIndirect"}[src.Intn(2)], reqs: drawBulk(src)}
 	}
+	// the caller owns the list it passes and uses the same objects for every file it sets
+	op.callerLists()
+	// sometimes an earlier bulk set on another file failed (conflicting versions for one path are a
+	// documented misuse that panics); what it leaves behind must not reach later calls
+	if !work && src.Bool(1, 6) {
+		if y, err := parseReal(work, bytes0); err == nil {
+			func() {
+				defer func() { recover() }()
+				y.f.SetRequire([]*modfile.Require{
+					{Mod: module.Version{Path: "stale.example/left-over", Version: "v1.0.0"}},
+					{Mod: module.Version{Path: "example.com/a", Version: "v1.0.0"}},
+					{Mod: module.Version{Path: "example.com/a", Version: "v1.2.3"}},
+				})
+			}()
+			res.Faults["earlier-bulk-set-panicked(conflicting versions)"]++
+			history = append(history, "[on another file: SetRequire with conflicting versions, recovered]")
+		}
+	}
 	history = append(history, op.String(), "Cleanup")
 	hist := strings.Join(history, "; ")
 	res.Logf("C16: %s then %s\n%s", map[bool]string{true: "go.work", false: "go.mod"}[work], op, string(bytes0))
@@ -468,6 +504,8 @@ func c16Run(src *choice.Src) *core.Result {
 		reps = 32 // a replay samples the map order more often, so that an order-dependent result shows again
 	}
 	var outs [][]byte
+	var first *realFile
+	var others []*realFile
 	for k := 0; k < reps; k++ {
 		x, err := parseReal(work, bytes0)
 		if err != nil {
@@ -481,6 +519,10 @@ func c16Run(src *choice.Src) *core.Result {
 		}
 		x.cleanup()
 		outs = append(outs, x.format())
+		if k == 0 {
+			first = x
+		}
+		others = append(others, x)
 		res.Steps++
 	}
 	for k := 1; k < reps; k++ {
@@ -498,6 +540,42 @@ func c16Run(src *choice.Src) *core.Result {
 		return res
 	}
 	r0.cleanup()
+	// after the same list went to the other files, the first file is set to it once more: the result
+	// must be what it was
+	if first != nil {
+		if err := first.apply(op); err != nil {
+			res.Fail("C16", "bulk-setter-runs", "a bulk setter failed or panicked when the same list was applied to a file a second time", "%s: %v\nfile before:\n%s\nhistory: %s", op, err, clipText(bytes0), hist)
+			return res
+		}
+		first.cleanup()
+		if again := first.format(); !bytes.Equal(again, outs[0]) {
+			res.Logf("first result:\n%s\nafter setting the same list again:\n%s", clipText(outs[0]), clipText(again))
+			if c16Judge(res, work, op, []*mModel{model}, pre, bytes0, again, "set to the same list a second time, after the list had been applied to other files") {
+				return res
+			}
+		}
+	}
+	// then the first file is set to a shorter list (a new list object): it must hold exactly that, and the
+	// other files, which nobody touched since, must read as they did
+	if first != nil && len(op.reqs) > 0 && res.Violation == nil {
+		op2 := mOp{name: op.name, reqs: append([]mEntry(nil), op.reqs[:len(op.reqs)-1]...)}
+		op2.callerLists()
+		if err := first.apply(op2); err != nil {
+			res.Fail("C16", "bulk-setter-runs", "a bulk setter failed or panicked", "%s after %s: %v\nfile before:\n%s\nhistory: %s", op2, op, err, clipText(bytes0), hist)
+			return res
+		}
+		first.cleanup()
+		if c16Judge(res, work, op2, []*mModel{model}, pre, bytes0, first.format(), "set to a shorter list after the longer one had been applied to this and to other files") {
+			return res
+		}
+		for k := 1; k < len(others); k++ {
+			others[k].cleanup()
+			if now := others[k].format(); !bytes.Equal(now, outs[k]) {
+				res.Fail("C16", "other-files-untouched", "a file changed although only another file was edited", "%s was applied to several files from one list; then the first file was set to %s; file #%d, untouched since its own set, was\n%s\nand now reads\n%s", op, op2, k, clipText(outs[k]), clipText(now))
+				return res
+			}
+		}
+	}
 	variants := [][]byte{outs[0], r0.format()}
 	for vi, out := range variants {
 		// from the re-parsed file there is one order; on the in-memory session "first" may be read as first
